@@ -102,6 +102,48 @@ def cxxio_pass(prop, tier, seed):
     return viols, obs, obs["cxx_cases"]
 
 
+def stress_pass(prop, tier, seed):
+    """C02, real-concurrency half: free-running children with random chunking and micro-sleeps, reader and writer
+    threads per child, several children at once, under ASan+UBSan (src/mt.c, the C20 harness, built with ASan)."""
+    import os
+    import shutil
+    import subprocess
+    from concurrent.futures import ThreadPoolExecutor
+    vchild = build.build_vchild()
+    binp = build.build_mt("asan")
+    env = dict(os.environ)
+    env.update(core.SAN_ENV)
+    reps = 12 if tier == "quick" else 240
+    nproc = 4
+    root = os.path.join(core.BUILD, "run", "stress.%d" % os.getpid())
+    os.makedirs(root, exist_ok=True)
+
+    def work(i):
+        p = subprocess.run([binp, vchild, os.path.join(root, "p%d" % i), str(reps // nproc), str(seed * 977 + i), "8"],
+                           stdout=subprocess.PIPE, stderr=subprocess.PIPE, env=env, text=True, errors="replace")
+        return p.returncode, p.stdout, p.stderr
+    with ThreadPoolExecutor(nproc) as ex:
+        outs = list(ex.map(work, range(nproc)))
+    shutil.rmtree(root, ignore_errors=True)
+    names = ["stress_children", "stress_bytes_verified", "stress_violations", "x1", "x2", "stress_streams_complete", "x3"]
+    obs = {"stress_children": 0, "stress_bytes_verified": 0, "stress_streams_complete": 0}
+    viols = []
+    for rc, out, err in outs:
+        if rc not in (0, 1, 3):
+            kind = "asan" if "AddressSanitizer" in err else "ubsan" if "runtime error" in err else "crash"
+            viols.append((prop, "%s/stress/%s" % (prop, kind), "stress harness died rc=%d: %s" % (rc, err[-500:]), {"seed": seed, "module": "stress"}, [err[-2000:]]))
+        for line in out.splitlines():
+            f = line.split("\t")
+            if f[0] == "V" and len(f) >= 4 and f[1] in ("output-length", "output-crosstalk", "read-failed", "write-failed", "stdin-pipe-leaked-to-sibling"):
+                viols.append((prop, "%s/stress/%s" % (prop, f[1]), "%s [%s]" % (f[3], f[2]), {"seed": seed, "module": "stress", "where": f[2]}, [line[:400]]))
+            elif f[0] == "S":
+                vals = [int(x) for x in f[1:]]
+                for n, v in zip(names, vals):
+                    if n in obs:
+                        obs[n] += v
+    return viols, obs, obs["stress_children"]
+
+
 KERNEL_TRUST = [
     "Linux pipe/signal/wait semantics and /proc are trusted (ground truth comes from waitid(WNOWAIT))",
     "the virtual clock replaces clock_gettime/poll for the library only; the helper child acts only on scheduled events",
@@ -162,9 +204,12 @@ CHECKS = {
         "interleavings of child writes/closes/exit with parent reads of sizes 0,1,7,4096,65536; stdin transfers in every "
         "chunk size followed by close; start-up input; mixed; nonblocking empty/data/EOF) in blocking and nonblocking mode "
         "with err in {pipe, stdout, parent, discard}; payloads are position-coded and verified byte by byte, EOF placement "
-        "is checked against acknowledged child writes/closes; non-trivial = at least one read or write was checked",
+        "is checked against acknowledged child writes/closes; plus a real-concurrency pass (free-running children writing in random "
+        "chunks with micro-sleeps and echoing up to 1 MiB of stdin, reader and writer threads, 2-8 children at once, ASan); "
+        "non-trivial = at least one read or write was checked",
         {"reads": 3000, "bytes_verified": 15000000, "epipes": 1000, "eagains": 100, "size0_reads": 100,
-         "stdin_bytes_verified": 10000000, "eof_checks": 500}, assumptions=KERNEL_TRUST),
+         "stdin_bytes_verified": 10000000, "eof_checks": 500, "stress_children": 30, "stress_bytes_verified": 5000000},
+        assumptions=KERNEL_TRUST, extra=stress_pass),
     "C16": scen_check(
         "eng_io", "exploration",
         "reproc_drain / reproc_run_ex over children writing 0..1 MB in 1-5 chunks to both streams, closing streams before "
